@@ -98,6 +98,87 @@ func family() (batch, incr []rescorr.Case) {
 	return
 }
 
+// ownerRevisions: unsplit = revisions of module m each written with the shared nodes inline; split =
+// the same revisions each saying `include s;` with the shared nodes in submodule s. Position-free
+// dumps must agree. Known finding D63 (the merged-submodule bookkeeping is keyed by bare names, so
+// only the revision converted first receives the submodule's nodes) is recognised by its exact
+// signature: the only differences are records of a revision other than the latest that are missing
+// from the split run; anything else is reported as a violation.
+func ownerRevisions(f *lib.Flags, res *lib.Result) {
+	shared := []string{"leaf froms { type string; }", "container cs { leaf inner { type int8; } }",
+		"grouping sg { leaf viag { type string; } } container usesg { uses sg; }"}
+	revs := []string{"2019-01-01", "2020-01-01", "2021-06-01"}
+	var cases []rescorr.Case
+	for k := 2; k <= 3; k++ {
+		for si, sh := range shared {
+			var un, sn, ut, st []string
+			for i := 0; i < k; i++ {
+				own := fmt.Sprintf("leaf own%d { type string; }", i)
+				name := "m@" + revs[i] + ".yang"
+				un, sn = append(un, name), append(sn, name)
+				ut = append(ut, fmt.Sprintf("module m { namespace \"urn:m\"; prefix m; revision %s; %s %s }", revs[i], own, sh))
+				st = append(st, fmt.Sprintf("module m { namespace \"urn:m\"; prefix m; include s; revision %s; %s }", revs[i], own))
+			}
+			sn = append(sn, "s.yang")
+			st = append(st, "submodule s { belongs-to m { prefix m; } "+sh+" }")
+			id := fmt.Sprintf("owner-revisions k=%d shared=%d", k, si)
+			cases = append(cases, rescorr.Case{Names: un, Texts: ut, Extra: map[string]string{"variant": "unsplit", "id": id}},
+				rescorr.Case{Names: sn, Texts: st, Extra: map[string]string{"variant": "split", "id": id, "latest": "m@" + revs[k-1]}})
+		}
+	}
+	outs := rescorr.RunAll(cases, f)
+	var n int64
+	for i := 0; i+1 < len(outs); i += 2 {
+		u, sp := outs[i], outs[i+1]
+		if u.Crashed || sp.Crashed {
+			res.AddDisagreement(lib.Disagreement{Kind: "crash", Input: sp.Case, Go: u.CrashMsg + sp.CrashMsg, SpecVerdict: "violates",
+				What: "goyang crashed or hung on the owner-revision family", Replay: sp.Case})
+			continue
+		}
+		if u.Skipped != "" || sp.Skipped != "" {
+			continue
+		}
+		n++
+		// the submodule's own tree has no counterpart in the unsplit set
+		var gs []string
+		for _, r := range stripPos(lib.Project(sp.Go.Dump, keys, true)) {
+			if fs := strings.Fields(r); len(fs) > 1 && fs[0] == "N" && fs[1] == lib.HexS("s") {
+				continue
+			}
+			gs = append(gs, r)
+		}
+		gu := stripPos(lib.Project(u.Go.Dump, keys, true))
+		if d := rescorr.Diff(gu, gs); d != "" {
+			inS := map[string]bool{}
+			for _, r := range gs {
+				inS[r] = true
+			}
+			inU := map[string]bool{}
+			for _, r := range gu {
+				inU[r] = true
+			}
+			known := "D63"
+			for _, r := range gs {
+				if !inU[r] {
+					known = "" // something the unsplit run does not have
+				}
+			}
+			for _, r := range gu {
+				if !inS[r] {
+					fs := strings.Fields(r)
+					if len(fs) < 2 || fs[0] != "N" || fs[1] == lib.HexS(sp.Case.Extra["latest"]) {
+						known = "" // not a node record, or the latest revision lost nodes
+					}
+				}
+			}
+			res.AddDisagreement(lib.Disagreement{Kind: "spec", Input: map[string]any{"unsplit": u.Case, "split": sp.Case}, Go: gs, Model: gu,
+				SpecVerdict: "violates", Known: known,
+				What: "revisions of a module that include one submodule differ from the same revisions with the nodes written inline: " + d, Replay: sp.Case})
+		}
+	}
+	res.Distribution["owner_revision_pairs"] = n
+}
+
 func main() {
 	f := lib.ParseFlags()
 	if lib.IsChild() {
@@ -170,6 +251,9 @@ func main() {
 		}
 	}
 	res.Distribution["revision_family_histories"] = famCompared
+	// several revisions of one OWNER module that include the same submodule: every revision's tree
+	// must hold the submodule's nodes, as the unsplit revisions do
+	ownerRevisions(f, res)
 	outs := rescorr.RunAll(cases, f)
 	// incremental variants: Go against Go (batch), position-free (load order moves nothing, but the
 	// comparison is shared with the split variant)
